@@ -92,7 +92,7 @@ TEXT = {
         "technique": "Lean 4 proof (invariant over derivation histories, decision logic stated outright) + differential correspondence",
     },
     "C17": {
-        "level": "Theorems (Props/C17.lean): revids_count, revid_is_block_signature, derive_revids, derive_keeps_LibWF, revids_prefix over all derivation histories, "
+        "level": "Theorems (Props/C17.lean): revids_count, revid_is_block_signature, derive_revids, derive_keeps_LibWF, revids_prefix, revids_count_history (one more id per append, none for seal/reload) and revids_take_ancestor over all derivation histories, reload_revids, "
                  "revids_distinct_conditional (under explicit hypotheses on the scheme and distinct seeds). Tied by family histories reading RevocationIds() after every "
                  "operation, the Lean wire decoder finding the same signatures in Serialize(), and global uniqueness per signing event across the run.",
         "note": COMMON_NOTE + "Uniqueness is conditional on stated hypotheses about ed25519 and entropy.",
